@@ -6,6 +6,10 @@ from .core import SC, SAbs, SLabel, Poly, G, Inconclusive, PathAbort, explore
 from .npf import NPFacade, OutOfBound, patch_modules
 
 
+class HarnessError(Exception):
+    pass
+
+
 class Ob:
     """obligation: expr must be zero. scale: values whose magnitudes bound the size of the terms"""
     __slots__ = ('name', 'expr', 'scale', 'rounds', 'conj', 'mults')
@@ -155,7 +159,7 @@ def _poly_from_key(key):
 
 def check_path(ctx, val, tol=1e-9):
     """do concrete atom values satisfy the path's input-side conditions?"""
-    for p in ctx.E:
+    for p in (ctx.E_orig if ctx.E_orig is not None else ctx.E):
         au = p.atoms_used()
         if all(a in val for a in au):
             v = p.eval(val); sc = sum(abs(Poly({m: c}).eval(val)) for m, c in p.t.items()) or 1.0
@@ -182,7 +186,7 @@ def _solve_equalities(ctx, inputs, kinds, rng):
     for _ in range(3):
         val = eval_atoms(ctx, inputs)
         changed = False
-        for p in ctx.E:
+        for p in (ctx.E_orig if ctx.E_orig is not None else ctx.E):
             au = p.atoms_used()
             if not au or any(at.unknown[a] for a in au): continue
             if not all(a in val for a in au): continue
@@ -348,7 +352,7 @@ def concrete_residuals(obs, tol=1e-6):
 
 
 def run_symbolic(execute, cfg, mods, rounds=0, conj=False, symbolic_labels=False, facade=None,
-                 replay_tries=4, seed=0, max_paths=20000, on_exception=None):
+                 replay_tries=4, seed=0, max_paths=20000, on_exception=None, simplify=False):
     """explore all paths of execute(cfg, V) with the repository modules patched; discharge obligations;
     replay candidates on the unpatched code.
     returns dict(paths, obligations, discharged, queries, solver_s, violations, inconclusive, out_of_bound)"""
@@ -366,6 +370,8 @@ def run_symbolic(execute, cfg, mods, rounds=0, conj=False, symbolic_labels=False
             raise
         except Exception as e:
             return ('exc', e, traceback.format_exc()[-1200:], V)
+        if simplify:
+            ctx.simplify()
         if ctx.inconsistent():
             # vacuity guard: an inconsistent path condition would entail everything
             raise PathAbort()
@@ -447,7 +453,10 @@ def replay_candidate(execute, cfg, ctx, V, failed, rng, tries):
         lm = label_assignment(ctx, V.labels) if V.symbolic_labels else {}
         if lm is None:
             last = 'labels_not_concretised'; continue
-        rep = run_concrete(execute, cfg, inputs, lm)
+        try:
+            rep = run_concrete(execute, cfg, inputs, lm)
+        except HarnessError as e:
+            return {'status': 'harness_error: ' + str(e)[:300]}
         if rep['bad']:
             sig = {'kind': rep['kind'], 'obligation': rep['bad'][0][0] if rep['kind'] == 'residual' else None,
                    'exception': rep.get('exception'), 'where': rep.get('where'),
@@ -469,6 +478,9 @@ def run_concrete(execute, cfg, inputs, labelmap=None):
         for fr in reversed(tb):
             if fr.filename.startswith('/repo/src'):
                 where = f"{fr.filename.split('CircuitCalculator/')[-1]}:{fr.name}"; break
+        if where is None:
+            # raised by harness code, not by the repository: a harness error, never a violation
+            raise HarnessError(f'{type(e).__name__}: {e} (raised outside /repo/src during concrete replay)') from e
         return {'bad': [('exception', 0.0, 0.0)], 'kind': 'exception', 'exception': type(e).__name__, 'where': where,
                 'message': str(e)[:200]}
     bad = concrete_residuals(obs)
